@@ -41,6 +41,39 @@ func (h *Handler) refresh(ctx context.Context, mustReport bool) (err error) {
 // healthcheck domain names.
 const randomPlaceholder = "${RANDOM}"
 
+// maxRandomPlaceholderLen is the maximum length of the string that replaces
+// [randomPlaceholder]: a 64-bit number in hexadecimal notation.
+const maxRandomPlaceholderLen = 16
+
+// maxDomainNameWireLen is the maximum length of a domain name in the wire
+// format, see RFC 1035, section 2.3.4.
+const maxDomainNameWireLen = 255
+
+// ValidateHealthcheckDomainTmpl returns an error if a valid healthcheck request
+// cannot be built from tmpl, for example because a label of the resulting
+// domain name is empty or longer than 63 octets, or the whole name is too long.
+// With such a template no valid probe is ever sent, and every main upstream is
+// considered down.
+func ValidateHealthcheckDomainTmpl(tmpl string) (err error) {
+	longest := strings.Repeat("f", maxRandomPlaceholderLen)
+	domain := strings.ReplaceAll(tmpl, randomPlaceholder, longest)
+
+	buf := make([]byte, dns.MinMsgSize)
+	n, err := dns.PackDomainName(dns.Fqdn(domain), buf, 0, nil, false)
+	if err != nil {
+		return fmt.Errorf("bad healthcheck domain %q: %w", domain, err)
+	} else if n > maxDomainNameWireLen {
+		return fmt.Errorf(
+			"bad healthcheck domain %q: too long: got %d octets, max %d",
+			domain,
+			n,
+			maxDomainNameWireLen,
+		)
+	}
+
+	return nil
+}
+
 // healthcheck returns an error if all of handler's main upstreams are down.
 // Updates handler's activeUpstreams slice.
 func (h *Handler) healthcheck(ctx context.Context, mustReport bool) (err error) {
